@@ -5,6 +5,7 @@ these, this file stops compiling and the check reports a broken obligation.
 -/
 import Pandora.Gen.GrpcGun
 import Pandora.Model.C20
+import Pandora.Model.C20Net
 
 namespace Pandora.Bridge.C20
 open Pandora.Model.C20
@@ -84,12 +85,64 @@ theorem bindServices_eq : Gen.GrpcGun.bindServices = "sharedDeps.services" := rf
 theorem bindStub_eq : Gen.GrpcGun.bindStub =
     "if sharedDeps.clientPool != nil then sharedDeps.clientPool.Next() else grpcdynamic.NewStub(conn)" := rfl
 
+/-! ### endpoints (`Model/C20Net.lean`) -/
+
+/-- `makeConnect` dials the configured target, `makeReflectionConnect` the target with the reflection port
+(`dialAddr`) -/
+theorem connectTarget_eq :
+    Gen.GrpcGun.connectTarget = "MakeGRPCConnect($recv.Conf.Target, $recv.Conf.TLS, $recv.Conf.DialOptions)" := rfl
+theorem reflectionTarget_eq : Gen.GrpcGun.reflectionTarget =
+    "MakeGRPCConnect(replacePort($recv.Conf.Target, $recv.Conf.ReflectPort), $recv.Conf.TLS, $recv.Conf.DialOptions)" := rfl
+/-- only the warm-up's descriptor request uses the reflection connection; the shared pool's connections and an
+instance's own connection are made by `makeConnect` (`Dial.reflection` / `Dial.pool` / `Dial.own`) -/
+theorem reflectDial_eq : Gen.GrpcGun.reflectDial = "result0($recv.makeReflectionConnect())" := rfl
+theorem poolDial_eq : Gen.GrpcGun.poolDial = "result0($recv.makeConnect())" := rfl
+theorem bindDial_eq : Gen.GrpcGun.bindDial = "result0($recv.makeConnect())" := rfl
+/-- the reflection request carries `reflect_metadata`; `shoot` / `shootStep` never look at the reflection settings -/
+theorem reflectContext_eq : Gen.GrpcGun.reflectContext =
+    "metadata.NewOutgoingContext(context.Background(), metadata.New($recv.Conf.ReflectMetadata))" := rfl
+theorem reflectSettingsInShoot_eq : Gen.GrpcGun.reflectSettingsInShoot = [] := rfl
+
+/-- `replacePort` is the decision list the model's `replacePort` implements: port 0 ↦ host; no `:` ↦ append; last
+part not an int64 ↦ append; otherwise replace the last part -/
+theorem replacePortRows_eq : Gen.GrpcGun.replacePortRows =
+    [("$1 == 0", "$0"),
+     ("len(strings.Split($0, \":\")) == 1", "$0 + \":\" + strconv.FormatInt($1, 10)"),
+     ("result1(strconv.ParseInt(strings.Split($0, \":\")[len(strings.Split($0, \":\")) - 1], 10, 64)) != nil",
+      "$0 + \":\" + strconv.FormatInt($1, 10)"),
+     ("otherwise", "strings.Join(strings.Split($0, \":\"), \":\")")] := rfl
+theorem replacePortStores_eq : Gen.GrpcGun.replacePortStores =
+    ["strings.Split($0, \":\")[len(strings.Split($0, \":\")) - 1] = strconv.FormatInt($1, 10)"] := rfl
+
+/-- the scenario gun hands its target, reflection settings, timeout and TLS flag down to the plain gun it wraps -/
+theorem scenarioConfCopies_eq : Gen.GrpcGun.scenarioConfCopies =
+    [("Target", "$0.Target"), ("ReflectPort", "$0.ReflectPort"), ("ReflectMetadata", "$0.ReflectMetadata"),
+     ("Timeout", "$0.Timeout"), ("TLS", "$0.TLS")] := rfl
+
+/-! ### the templater renders EVERY metadata value -/
+
+/-- the loop ranges over the map it was given, executes every value's template with the step's variables and stores
+the result under the same key of the same map; there is no condition under which a value is skipped -/
+theorem templaterLoop_eq : Gen.GrpcGun.templaterLoop =
+    "range $1 | execute with $2 | store same-map-same-key=true := String() of the executed-into builder=true" := rfl
+theorem templaterLoopGuards_eq : Gen.GrpcGun.templaterLoopGuards = [] := rfl
+theorem templaterLoopExits_eq : Gen.GrpcGun.templaterLoopExits = [] := rfl
+/-- every template (payload and metadata alike) is parsed with pandora's template functions registered -/
+theorem templateParse_eq : Gen.GrpcGun.templateParse = "Funcs(templater.GetFuncs()).Parse($0)" := rfl
+
 /-! ### configuration and ammo field names the harness writes -/
 
 theorem gunConfigTags_timeout : ("Timeout", "timeout") ∈ Gen.GrpcGun.gunConfigTags := by decide
 theorem gunConfigTags_shared : ("SharedClient", "shared-client,omitempty") ∈ Gen.GrpcGun.gunConfigTags := by decide
 theorem sharedClientTags_eq :
     Gen.GrpcGun.sharedClientTags = [("ClientNumber", "client-number,omitempty"), ("Enabled", "enabled")] := rfl
+theorem gunConfigTags_reflect :
+    ("ReflectPort", "reflect_port") ∈ Gen.GrpcGun.gunConfigTags ∧ ("ReflectMetadata", "reflect_metadata") ∈ Gen.GrpcGun.gunConfigTags := by
+  decide
+theorem scenarioGunConfigTags_reflect :
+    ("ReflectPort", "reflect_port") ∈ Gen.GrpcGun.scenarioGunConfigTags ∧
+      ("ReflectMetadata", "reflect_metadata") ∈ Gen.GrpcGun.scenarioGunConfigTags := by
+  decide
 theorem scenarioGunConfigTags_timeout : ("Timeout", "timeout") ∈ Gen.GrpcGun.scenarioGunConfigTags := by decide
 theorem ammoJsonTags_eq :
     Gen.GrpcGun.ammoJsonTags = [("Tag", "tag"), ("Call", "call"), ("Metadata", "metadata"), ("Payload", "payload")] := rfl
